@@ -18,6 +18,9 @@ classes were requested first or how they were combined in incremental re-parses"
  R6  ``Sourcefile.make_complete`` never skips the parse because of the file-level
      record of requested classes (that record is not a record of what has been
      matched inside the program units).
+ R7  the CALL and USE patterns are evaluated against a table of statement spellings
+     (``use, intrinsic :: m``, ``use :: m``, ...) that they must match and of
+     identifiers starting with the keyword (``call_count = 1``) that they must not.
 Not decided: the 1st sentence (regex language vs Fortran grammar).
  R4  re-use of an already created unit is scope-local: ``ModulePattern.match`` and
      ``SubroutineFunctionPattern.match`` retrieve an existing ``Module`` /
@@ -296,8 +299,49 @@ def run(ctx):
             ctx.judge('R6', inst, nontrivial=False)
     ctx.floor('R6', 'return statements of Sourcefile.make_complete', n6, 1)
 
+    # ---- R7 statement spellings
+    import re as _re
+    ctx.rule('R7', 'the CALL and USE patterns of the regex frontend accept every spelling of the statement head the grammar allows (R1109, R1220) '
+                   'and reject identifiers that merely start with the keyword')
+    RXF = 'loki/frontend/regex.py'
+    TABLE = {
+        'CallPattern': (['call foo(a)', 'call foo', 'CALL  obj%proc(x)', 'if (a > 0) call bar(a)'],
+                        ['call_count = 1', 'callback_count = callback_count + 1', 'callfoo = 2']),
+        'ImportPattern': (['use m', 'use m, only: a', 'use :: m', 'use, intrinsic :: iso_c_binding, only: c_int', 'use, non_intrinsic :: m',
+                           'use m, only: a => b'], ['user_var = 1', 'used = .true.']),
+    }
+    for cn, (accept, reject) in TABLE.items():
+        C_ = m.get_class(RXF, cn)
+        init = C_.function('__init__')
+        if init is None:
+            raise AnalysisError(f'{cn}.__init__ vanished')
+        sup = [c_ for c_ in ast.walk(init.node) if isinstance(c_, ast.Call) and (X.dotted_attr(c_.func) or '').endswith('__init__') and c_.args]
+        if not sup:
+            raise AnalysisError(f'{cn}: pattern literal not found')
+        pat = m.const(C_.module, sup[0].args[0], C_)
+        from sa.model import NOFOLD
+        if pat is NOFOLD or not isinstance(pat, str):
+            raise AnalysisError(f'{cn}: pattern does not fold to a string')
+        flags = _re.I if any('IGNORECASE' in ast.unparse(a_) for a_ in sup[0].args[1:]) else 0
+        rx = _re.compile(pat, flags)
+        where_ = f'{RXF}:{sup[0].lineno}'
+        for sp in accept:
+            inst = f'{cn}:accepts:{sp}'
+            (ctx.judge('R7', inst) if rx.search(sp) else
+             ctx.violation('R7', f'{cn}:spelling-not-matched', where_,
+                           f'the pattern {pat[:60]!r}... does not match `{sp}`: the statement is found by the full parser but not by the regex '
+                           f'frontend', instance=inst))
+        for sp in reject:
+            inst = f'{cn}:rejects:{sp}'
+            (ctx.judge('R7', inst) if not rx.search(sp) else
+             ctx.violation('R7', f'{cn}:identifier-matched', where_,
+                           f'the pattern {pat[:60]!r}... matches `{sp}`, an assignment to a variable whose name starts with the keyword: the regex '
+                           f'frontend reports a statement the full parser does not see', instance=inst))
+    # ---- R8 (C31-style) is in c31
+
 
 MUTANTS = [
+    Mutant('call-keyword-without-blank', 'loki/frontend/regex.py', "            r'call[ \\t]+',  # Call keyword", "            r'call',  # Call keyword", expect=('R7', 'identifier-matched')),
     Mutant('file-level-shortcut', 'loki/sourcefile.py', "            if frontend == REGEX:\n                frontend_argnames = ['parser_classes']\n",
            "            if frontend == REGEX:\n                frontend_argnames = ['parser_classes']\n                if self._parser_classes and (self._parser_classes | frontend_args.get('parser_classes', RegexParserClass.AllClasses)) == self._parser_classes:\n                    return\n",
            expect=('R6', 'skip-on-requested-classes')),
